@@ -49,6 +49,8 @@ var c12Kinds = []string{
 	"vfund:state-1part", "vsettle:state-1part",
 	"vsettle:locked-drop-all", "vsettle:locked-drop-first", "vsettle:locked-swap",
 	"vsettle:unknown-virtual", "vsettle:state-3parts", "vsettle:sigs-nil", "vsettle:other-id", "vsettle:twice",
+	// responses to a proposal of the victim that has already timed out, more of them than a receiver buffers
+	"presp:late-flood",
 	// sync
 	"sync:nil-state", "sync:current", "sync:unknown-channel", "sync:while-locked", "sync:phase-garbage",
 }
@@ -103,6 +105,10 @@ func genC12(r *kernel.Rand) *kernel.Scenario {
 			w[i] = 0
 		}
 	}
+	if r.Bool(0.5) {
+		// the probes start with a new channel opening between two honest clients
+		c["probe_open"] = 1
+	}
 	n := r.Range(1, 6)
 	for i := 0; i < n; i++ {
 		k := c12Kinds[r.Weighted(w)]
@@ -130,7 +136,7 @@ func execC12(tt *testing.T, sc *kernel.Scenario, trace bool) *kernel.Result {
 			}
 			return e, true
 		}
-		a := &c12adv{t: t}
+		a := &c12adv{t: t, pendingOver: make(chan struct{})}
 		a.zWire = map[wallet.BackendID]wire.Address{channel.TestBackendID: func() *simwire.Address { x := simwire.NewAddress(); copy(x[:], "stranger-Z"); return x }()}
 		t.w.Bus.Name(a.zWire, "Z")
 		for k := int64(0); k < sc.Cfg("virtual", 0); k++ {
@@ -169,6 +175,7 @@ func execC12(tt *testing.T, sc *kernel.Scenario, trace bool) *kernel.Result {
 			ctx, cancel := context.WithTimeout(context.Background(), 6*time.Second)
 			defer cancel()
 			_, _ = t.H.Client.ProposeChannel(ctx, prop)
+			close(a.pendingOver)
 		}()
 		time.Sleep(time.Millisecond)
 		sent := 0
@@ -221,6 +228,25 @@ func execC12(tt *testing.T, sc *kernel.Scenario, trace bool) *kernel.Result {
 				s.Fail("C12.lockup@"+name, "after the hostile messages an honest request on %s did not return within 120 simulated seconds", name)
 			}
 		}
+		if !s.Failed() && sc.Cfg("probe_open", 0) == 1 {
+			// an honest request that needs new subscriptions at the client's relay:
+			// B opens another ledger channel with H
+			done := make(chan [2]*client.Channel, 1)
+			go func() {
+				done <- t.openLedger(len(sc.Steps)+7, t.B, int(sc.Cfg("assets", 1)), kernel.NewRand(kernel.Derive(uint64(sc.Cfg("r", 1)), "probe-open")))
+			}()
+			tm := time.NewTimer(120 * time.Second)
+			select {
+			case chs := <-done:
+				if chs[0] == nil || chs[1] == nil {
+					s.Fail("C12.unresponsive@open B-H", "after the hostile messages a channel opening between two honest clients failed")
+				}
+				s.Count("probe.probe_open", 1)
+			case <-tm.C:
+				s.Fail("C12.lockup@open B-H", "after the hostile messages a channel opening between two honest clients did not return within 120 simulated seconds")
+			}
+			tm.Stop()
+		}
 		if !s.Failed() {
 			probe("B-H", t.H, t.chBH[1])
 		}
@@ -237,6 +263,7 @@ type c12adv struct {
 	zWire          map[wallet.BackendID]wire.Address
 	virt           *virtInfo
 	pendingProp    client.ProposalID
+	pendingOver    chan struct{} // closed when the victim's proposal to Z has returned (timed out)
 	pendingVersion uint64
 	sentOnce       map[string]wire.Msg
 	abandoned      channel.ID
@@ -287,6 +314,25 @@ func (a *c12adv) send(step int, st *kernel.Step) bool {
 		}
 		time.Sleep(t.H.CtxTimeout + 2*time.Second) // the victim's opening attempt has timed out by now
 		kind = "sprop:funding-of"
+	}
+	if kind == "presp:late-flood" {
+		// Z, to whom the victim proposed a channel, stays silent until the victim
+		// has given up and then answers: many times, accepting and refusing
+		<-a.pendingOver
+		zAcc := gen.Pool(6)[5].Addr
+		n := r.Range(17, 40)
+		for i := 0; i < n; i++ {
+			var m wire.Msg = &client.LedgerChannelProposalAccMsg{BaseChannelProposalAcc: client.BaseChannelProposalAcc{ProposalID: a.pendingProp, NonceShare: client.NonceShare{byte(i)}}, Participant: zAcc}
+			if r.Bool(0.3) {
+				m = &client.ChannelProposalRejMsg{ProposalID: a.pendingProp, Reason: "too late"}
+			}
+			if t.w.Bus.Inject(&wire.Envelope{Sender: a.zWire, Recipient: t.H.Wire, Msg: m}, s.Delay(fmt.Sprintf("inject:%d:%d", step, i), 0, 100*time.Microsecond)) != nil {
+				return false
+			}
+		}
+		s.Count("fault.msg."+kind, 1)
+		s.Count("fault.late_proposal_responses", int64(n))
+		return true
 	}
 	msg := a.build(kind, r, from, fromAcc, fromZ)
 	if msg == nil {
